@@ -324,7 +324,7 @@ def extra_stages(tier, seed, scratch, total, notes):
             mt.merge(r)
         notes.append({"stage": "miri", "processes": len(jobs), "value_pairs": 8 * 160, "programs_as_ast": mt.observed.get("astexec_programs", 0),
                       "wall_s": round(_t.time() - t0, 1), "reports": len(mt.violations), "inconclusive": mt.inconclusive[:3],
-                      "statement": "no undefined behaviour reported by Miri on these direct Value operator calls" if not mt.violations else "Miri reported (see violations)"})
+                      "statement": "no undefined behaviour reported by Miri on these direct Value operator calls and pre-parsed programs" if not mt.violations else "Miri reported (see violations)"})
         mt.observed = {"miri:" + k: v for k, v in mt.observed.items() if not isinstance(v, set)}
         total.merge(mt)
     except runner.Inconclusive as e:
